@@ -26,7 +26,7 @@ ASSUMPTIONS = ['csv parsing and number parsing/formatting are transport: foreign
                '(the code does not determine it); the last saved mapping of a field is claimed when the saved file is the '
                'last visited file saying anything about the field (Lean: view_field_eq_last / metadata_last_saved_among_files)',
                'the spike selection of save_spikes_subset_waveforms (random, C17) and get_template().channel_ids (C05) are '
-               'observed on the real model and given to the Lean model; stores of fewer than 2 spikes are not queried (see report)']
+               'observed on the real model and given to the Lean model']
 FIELDS = ['group', 'quality', 'n_x', 'in']       # 'in': cluster_in.tsv is a prefix of the ignored cluster_info.tsv
 TEXTS = ['good', 'mua', 'a\tb', 'x,y', 'say "hi"', 'noise ']
 
@@ -107,8 +107,8 @@ def impl(case):
                          # the order in which the loader's two globs list this directory
                          order=[[p.stem, p.suffix == '.tsv'] for p in list(d.glob('*.csv')) + list(d.glob('*.tsv'))])
                 sw = m.spike_waveforms
-                if sw is not None and np.ndim(sw.spike_ids) > 0 and len(sw.spike_ids) >= 2:
-                    ids = np.asarray(sw.spike_ids)
+                if sw is not None:
+                    ids = np.atleast_1d(np.asarray(sw.spike_ids))
                     query = ids[::-1] if len(views) % 2 else ids
                     ch = list(range(m.n_channels))
                     got = m.get_waveforms(query, ch)
@@ -284,7 +284,7 @@ def tally(rep, case, impl_res, ans):
     rep.count('unit_factor:%s' % case.get('factor', 1.))
     if 'ok' in impl_res and 'ok' in ans:
         for v, m in zip(impl_res['ok']['views'], ans['ok']['views']):
-            rep.count('reload:store_%s' % ('queried' if v.get('store') else ('absent' if not m['subset'] else 'not_queried(<2 spikes)')))
+            rep.count('reload:store_%s' % ('queried%s' % ((' (single spike)' if len(v['store']['ids']) == 1 else '') + (' (single column)' if len(v['store']['channels'][0]) == 1 else '')) if v.get('store') else 'absent'))
             nf = len([f for f, vals in m['abs_fields'] if vals])
             rep.count('saved_fields:claimed', len(m['claimed']))
             rep.count('saved_fields:another_file_visited_later_or_overwritten', nf - len(m['claimed']))
@@ -387,11 +387,10 @@ def rand_history(rng, spec, L):
                 text = dl.join(['cluster_id', 'group', 'zz']) + '\n' + '1%sxx%s3\n' % (dl, dl)
             ops.append(dict(k=k, stem=stem, ext=ext, text=text, kind=kind, field=ff, mismatch=(kind == 'valid' and rng.random() < .4)))
         elif k == 'save_subset':
-            # store width = max(max_n or n_closest, n_closest). A width of ONE column is kept out of the generator: the
-            # reloaded channel table is squeezed to 1-D and get_waveforms raises IndexError (finding reported, not fixed
-            # here); n_closest_channels is 12 unless params.py sets it
-            ncc = (spec.get('params_extra') or {}).get('n_closest_channels', 12)
-            widths = [spec['n_channels'], 14] + ([0, 0, 1, 2] if ncc >= 2 else [])
+            # store width = max(max_n or n_closest, n_closest); a width of ONE column arises with n_closest_channels = 1
+            # (the reloaded channel table was once squeezed to 1-D, corpus/C10/pf_c10a_*); n_closest_channels is 12
+            # unless params.py sets it
+            widths = [spec['n_channels'], 14, 0, 0, 1, 2]
             ops.append(dict(k=k, nst=rng.randrange(1, 3), rs=rng.randrange(1000), max_n=rng.pick(widths)))
         elif k == 'close':
             ops.append(dict(k=k)); closed = True
@@ -427,6 +426,6 @@ def gen(tier, rng):
         if rng.random() < .5:
             # a narrow channel neighbourhood (params.py): the subset store then holds only the first 2..3 channels of
             # each template, so WHICH channels are stored matters
-            spec['params_extra'] = dict(spec.get('params_extra') or {}, n_closest_channels=rng.pick([2, 3]))
+            spec['params_extra'] = dict(spec.get('params_extra') or {}, n_closest_channels=rng.pick([1, 2, 3]))
         yield dict(p=PID, spec=spec, ops=rand_history(rng, spec, rng.randrange(2, 7 if q else 9)),
                    factor=rng.pick([1., 1., 2., 0.5]))
